@@ -20,9 +20,11 @@ META = {
   "crash = SIGKILL before a symbolic one of the process' IPC system calls or while idle: later calls of that process are no-ops (ECANCELED), "
   "the kernel closes its handles, names persist",
   "nested-atomic emulation (hist*_preempt): at the entry of sem_wait/sem_post of one process the other process may run one whole acquire/release (depth 1)",
+  "names_len*_realkey: REAL name handling (name + suffix) and REAL p_ipc_get_platform_key over the kernel model in string-name mode, concrete names of 1..100 characters "
+  "(pairs differing only in the last / only in the first character, and an equal copy); run with --max-field-sensitivity-array-size 256 so that heap strings > 64 bytes stay constant",
   "initval_*: init_val is a fully symbolic pint; negative values are the documented invalid argument (NULL); histories draw init from 0..VMAX",
   "allocator never fails (C18), no EINTR (C19), printf empty"],
- "outside": ["kernel semantics themselves (model trusted; SEM_VALUE_MAX = INT_MAX as on this platform)", "psemaphore-sysv.c (not built on this platform)", "more than 2 processes / 3 handles / 2 names",
+ "outside": ["kernel semantics themselves (model trusted; SEM_VALUE_MAX = INT_MAX as on this platform)", "psemaphore-sysv.c (not built on this platform)", "more than 2 processes / 3 handles / 2 names", "names other than the concrete ones used (key collisions of SHA-1 prefixes are possible in principle)",
              "histories longer than the stated number of calls", "counter values above VMAX+2",
              "concurrent p_semaphore_new / p_semaphore_free interleavings (the property quantifies interleavings of acquirers/releasers; creation races of the "
              "lock semaphore are covered under C07 race_*)",
